@@ -2,6 +2,11 @@
 
 package simsync
 
+import "sync"
+
 func raceAcquire[T any](p *T)      {}
 func raceRelease[T any](p *T)      {}
 func raceReleaseMerge[T any](p *T) {}
+
+// imutex guards the simulated primitives' own bookkeeping.
+type imutex = sync.Mutex
